@@ -415,6 +415,10 @@ fn string_from_utf8''')]},
      'edits': [(SCAN, "            if !read_chars.chars().all(|c| c.is_ascii_hexdigit()) {\n                return Err(());\n            }\n", "")]},
     {'name': 'U9 hex escape digits tested for being printable only', 'prop': 'C13', 'expect': 'U9 / scanner::Scanner::read_escaped_bytes',
      'edits': [(SCAN, "            if !read_chars.chars().all(|c| c.is_ascii_hexdigit()) {", "            if !read_chars.chars().all(|c| c.is_ascii_graphic()) {")]},
+    {'name': 'S11 resolve_upvalue looks only at the Ok side of resolve_local', 'prop': 'C06', 'expect': "S11 / Parser::<'a>::resolve_upvalue <- Compiler::resolve_local",
+     'edits': [(COMP, "            if let Err(CompilerError::ReadVarInInitialiser) = resolved {", "            if false {")]},
+    {'name': 'S11 pop_loop result ignored in while_statement', 'prop': 'C06', 'expect': "S11 / Parser::<'a>::while_statement <- Compiler::pop_loop",
+     'edits': [(COMP, "        self.emit_byte(OpCode::Pop as u8);\n        match self.compiler_mut().pop_loop() {\n            Ok(_) => {}\n            Err(e) => self.compiler_error(e),\n        }\n    }", "        self.emit_byte(OpCode::Pop as u8);\n        let _ = self.compiler_mut().pop_loop().is_ok();\n    }")]},
     # ---- C03 ----------------------------------------------------------------------------------------
     {'name': 'T1 parse returns the function when only warnings-like errors were recorded', 'prop': 'C03', 'expect': 'T1 / parse: Ok only behind',
      'edits': [(COMP, "        let had_error = !self.errors.borrow().is_empty();\n        if had_error {", "        let had_error = self.errors.borrow().len() > 1;\n        if had_error {")]},
